@@ -37,7 +37,7 @@ def load_units():
     return registry.all_units()
 
 
-LEVELS = {"C16": "other"}
+LEVELS = {}
 
 
 def registry_mod():
